@@ -427,6 +427,7 @@ def _held(st, tid):
 @model('pthread_mutex_lock')
 def mutex_lock(ex, st, th, a):
     m = ex.need_int(st, a[0])
+    st.sync_cnt[('L', th.tid)] = st.sync_cnt.get(('L', th.tid), 0) + 1       # explicit lock calls of this thread (native replay counts the same)
     owner = st.mutex.get(m)
     if owner is not None:
         if owner == th.tid:
@@ -441,6 +442,7 @@ def mutex_lock(ex, st, th, a):
         ex.vc_acquire(st, th.tid, ('m', m))
     if ex.preempt_bound and ex.preempt_in_cs:
         st.preempt_pending = True
+        st.last_sync = ('L', th.tid, st.sync_cnt.get(('L', th.tid), 0))
     return 0
 
 
@@ -466,6 +468,7 @@ def _unlock(ex, st, th, m):
         ex.vc_release(st, th.tid, ('m', m))
     if ex.preempt_bound:
         st.preempt_pending = True
+        st.last_sync = ('W', th.tid, 0)        # overwritten by the explicit unlock model
     for t in st.threads:
         if t.status == 'mutex' and t.wait == m:
             t.status = 'run'
@@ -473,7 +476,10 @@ def _unlock(ex, st, th, m):
 
 @model('pthread_mutex_unlock')
 def mutex_unlock(ex, st, th, a):
+    n = st.sync_cnt.get(('U', th.tid), 0) + 1
+    st.sync_cnt[('U', th.tid)] = n
     _unlock(ex, st, th, ex.need_int(st, a[0]))
+    st.last_sync = ('U', th.tid, n)
     return 0
 
 
@@ -568,6 +574,9 @@ def thread_start(ex, st, th, a):
         pv[th.tid] = pv.get(th.tid, 0) + 1
     if ex.preempt_bound:
         st.preempt_pending = True
+        n = st.sync_cnt.get(('S', th.tid), 0) + 1
+        st.sync_cnt[('S', th.tid)] = n
+        st.last_sync = ('S', th.tid, n)
     hook = ex.hooks.get('thread_start')
     if hook is not None:
         hook(ex, st, th, t)
